@@ -57,6 +57,39 @@ theorem C01_statement_partial (P : Params) (G : CFG) (dead : List CNT) (rankR ra
     funext p; simp [effParent, hn]
   rw [this]; rfl
 
+/-- **Clean**: in a table accepted by the checker every non-terminal is reachable from the
+    start symbol and productive (derives at least one program), and every argument of every
+    rule is again a non-terminal of the table — "every rule left in the grammar is reachable
+    and productive". -/
+theorem C01_clean (P : Params) (G : CFG) (dead : List CNT) (rankR rankP : AList CNT Nat)
+    (h : tableOK P G dead rankR rankP = true) :
+    ∀ e ∈ G.rules, Reach G e.1 ∧ (∃ t, gen G t e.1 = true) ∧
+      ∀ r ∈ e.2, ∀ a ∈ r.2.1, AList.contains (toNT a) G.rules = true := by
+  unfold tableOK at h
+  simp only [Bool.and_eq_true] at h
+  obtain ⟨⟨⟨⟨hstart, hrules⟩, _⟩, hreach⟩, hprod⟩ := h
+  unfold okStart at hstart
+  simp only [Bool.and_eq_true, beq_iff_eq, decide_eq_true_eq] at hstart
+  obtain ⟨_, hnd⟩ := hstart
+  intro e he
+  refine ⟨reach_of_cert G rankR hnd hreach _ e he (Nat.le_refl _),
+          prod_of_cert G rankP hnd hprod _ e he (Nat.le_refl _), ?_⟩
+  intro r hr a ha
+  unfold okRules at hrules
+  rw [List.all_eq_true] at hrules
+  have := hrules e he
+  simp only [Bool.and_eq_true] at this
+  obtain ⟨hsame, _⟩ := this
+  unfold sameRules at hsame
+  simp only [Bool.and_eq_true, decide_eq_true_eq] at hsame
+  obtain ⟨⟨hsub, _⟩, _⟩ := hsame
+  rw [List.all_eq_true] at hsub
+  have h1 := hsub r hr
+  have h1' : (r.1, r.2.1) ∈ (ruleSet P e.1).filter (fun r => r.2.all (isKey G)) := by simpa using h1
+  have := (List.mem_filter.mp h1').2
+  simp only [List.all_eq_true] at this
+  exact this a ha
+
 /-! ### non-vacuity and the recorded finding -/
 namespace Example
 def int : Ty := .base "int"
